@@ -68,6 +68,8 @@ def transformRow (nk W : Nat) (kn : Nat → R) (fcomp : R) (u : R) : R :=
     let t : Nat → R := linspace Num.zero Num.one 2
     ((kn 1 - kn 0) / (t 1 - t 0)) * (u - t 0) + kn 0
   else
+    -- nk = 3 ("quadratic") and nk = 4 ("cubic"); larger knot counts (a genuine cubic spline) are
+    -- outside the property and not modelled
     lagrange nk (linspace Num.zero Num.one nk) kn u
 
 /-- `transform_coordinates` on `preprocess`-made knots: canvas coordinates of pixel `(r, c)` -/
@@ -95,9 +97,14 @@ def corners (xa ya : R) : List (Int × Int × R) :=
     (xF, yF + 1, (Num.one - dx) * dy),
     (xF + 1, yF + 1, dx * dy) ]
 
-/-- what one point adds to canvas cell `(i, j)`: `ravel_multi_index(mode="wrap")` + `bincount` -/
+/-- what one corner contributes to canvas cell `(i, j)`:
+`ravel_multi_index(mode="wrap")` sends `(row, col)` to `(row % rows, col % cols)` -/
+def hit (rows cols : Nat) (q : Int × Int × R) (i j : Nat) : R :=
+  if wrap rows q.1 = i ∧ wrap cols q.2.1 = j then q.2.2 else Num.zero
+
+/-- what one point adds to canvas cell `(i, j)` (`bincount` of the four wrapped corners) -/
 def splatAt (rows cols : Nat) (xa ya : R) (i j : Nat) : R :=
-  (corners xa ya).foldl (fun acc q => if wrap rows q.1 = i ∧ wrap cols q.2.1 = j then acc + q.2.2 else acc) Num.zero
+  ((corners xa ya).map fun q => hit rows cols q i j).foldl (· + ·) Num.zero
 
 /-- raw `pix_count[i, j]` for `n` points -/
 def weightMapAt (rows cols n : Nat) (pt : Nat → R × R) (i j : Nat) : R :=
@@ -105,27 +112,42 @@ def weightMapAt (rows cols n : Nat) (pt : Nat → R × R) (i j : Nat) : R :=
 
 /-! ## translation alignment -/
 
-/-- a registration routine: `(reference, image) ↦ (shift, aligned image)`; the code calls
-`cross_correlation_shift(F_ref, fft2(im), fft_input=True, fft_output=True, return_shifted_image=True)`,
-here on the real-space images (the FFT is linear, so averaging aligned images in Fourier space
-and in real space is the same thing) -/
-abbrev Reg (R : Type) := (Nat → Nat → R) → (Nat → Nat → R) → (R × R) × (Nat → Nat → R)
+/-- a Fourier-space image (`np.fft.fft2` of a canvas, or the running reference `F_ref`) -/
+abbrev FImg (R : Type) := Nat → Nat → Cx R
+
+/-- a registration routine on Fourier-space images: `(F_ref, F_im) ↦ (shift, aligned F_im)`; the
+code calls `cross_correlation_shift(F_ref, fft2(im), fft_input=True, fft_output=True,
+return_shifted_image=True, upsample_factor=…, max_shift=…)` -/
+abbrev Reg (R : Type) := FImg R → FImg R → (R × R) × FImg R
 
 /-- `F_ref = F_ref * ind / (ind + 1) + image_shift / (ind + 1)` -/
-def meanUpdate (ref al : Nat → Nat → R) (ind : Nat) : Nat → Nat → R :=
-  fun i j => ref i j * Num.ofNat ind / Num.ofNat (ind + 1) + al i j / Num.ofNat (ind + 1)
+def meanUpdate (ref al : FImg R) (ind : Nat) : FImg R :=
+  fun k l =>
+    ⟨(ref k l).re * Num.ofNat ind / Num.ofNat (ind + 1) + (al k l).re / Num.ofNat (ind + 1),
+     (ref k l).im * Num.ofNat ind / Num.ofNat (ind + 1) + (al k l).im / Num.ofNat (ind + 1)⟩
 
 /-- the loop `for ind in range(1, n)` of `align_translation` -/
-def alignLoop (reg : Reg R) : (Nat → Nat → R) → Nat → List (Nat → Nat → R) → List (R × R)
+def alignLoop (reg : Reg R) : FImg R → Nat → List (FImg R) → List (R × R)
   | _, _, [] => []
   | ref, ind, im :: rest =>
       let r := reg ref im
       r.1 :: alignLoop reg (meanUpdate ref r.2 ind) (ind + 1) rest
 
-/-- `dxy` before the mean is removed (`dxy[0] = 0`) -/
-def alignShifts (reg : Reg R) : List (Nat → Nat → R) → List (R × R)
+/-- `dxy` before the mean is removed (`dxy[0] = 0`, `F_ref = fft2(images_warped[0])`) -/
+def alignShifts (reg : Reg R) : List (FImg R) → List (R × R)
   | [] => []
   | im0 :: rest => (Num.zero, Num.zero) :: alignLoop reg im0 1 rest
+
+/-- the registration routine `align_translation` uses, built from C13's model of
+`cross_correlation_shift(F_ref, F_im, upsample_factor=up, max_shift=ms, fft_input=True,
+fft_output=True, return_shifted_image=True)`.  `ccReal Fr Fi` stands for
+`real(ifft2(Fr * conj(Fi)))` (a parameter: the driver passes the defining inverse DFT). -/
+def regNp (M N up : Nat) (ms : Option R) (ccReal : FImg R → FImg R → Nat → Nat → R) : Reg R :=
+  fun Fr Fi =>
+    let raw := ccReal Fr Fi
+    let cs := masked M N ms raw
+    let shift := if up ≤ 1 then shiftNp1 M N cs raw else shiftNpUp M N up cs raw (ccF Fr Fi)
+    (shift, rampAt M N Fi shift.1 shift.2)
 
 def sumPairs : List (R × R) → R × R
   | [] => (Num.zero, Num.zero)
